@@ -338,7 +338,7 @@ def check_rows(ck):
                   sample={"fn": fn["path"], "helper": hit[0], "data": mir.fmt(a0), "len": mir.fmt(a1)})
             ck.ob("S-no-length-branch", fn["path"], not has_switch(body), "%s branches while building a slice view (length-dependent behaviour)" % fn["path"])
     ck.floor("slice view constructors", n_ctor, 3)
-    ck.floor("from_raw_parts conversions in slice.rs", n_back, 9)
+    ck.floor("from_raw_parts conversions in slice.rs", n_back, 3)
     ck.floor("utf-8 conversion sites", n_utf, 6)
     ck.floor("enum From impls", n_enum, 4)
     ck.floor("tuple From impls", n_tup, 8)
